@@ -146,3 +146,30 @@ def subscript_const(node) -> Optional[str]:
     if isinstance(node, ast.Subscript):
         return const_str(node.slice)
     return None
+
+
+def cursor_execute_calls(cfg: CFG):
+    """[(node, call)] for DB-API cursor.execute(...) calls: an .execute()
+    whose receiver is (or was bound from) a *cursor* attribute / cursor()."""
+    out = []
+    bound = set()
+    for n in cfg.nodes:
+        a = n.ast
+        if n.kind == 'stmt' and isinstance(a, ast.Assign):
+            v = unparse(a.value)
+            if v.endswith('._cursor') or v.endswith('.cursor()') or \
+                    v.endswith('.cursor'):
+                for t in a.targets:
+                    if isinstance(t, ast.Name):
+                        bound.add(t.id)
+    for n in cfg.nodes:
+        for c in n.walk():
+            if isinstance(c, ast.Call) and isinstance(c.func, ast.Attribute) \
+                    and c.func.attr == 'execute':
+                r = c.func.value
+                txt = unparse(r)
+                if (isinstance(r, ast.Name) and (r.id in bound or
+                                                 'cursor' in r.id)) or \
+                        txt.endswith('_cursor') or txt.endswith('.cursor'):
+                    out.append((n, c))
+    return out
